@@ -20,6 +20,7 @@ import (
 type Fault struct {
 	After int
 	n     int
+	Fired bool
 }
 
 func (f *Fault) tick() error {
@@ -27,6 +28,7 @@ func (f *Fault) tick() error {
 		return nil
 	}
 	if f.n >= f.After {
+		f.Fired = true
 		return fmt.Errorf("fnode: injected iterator failure after %d entries", f.After)
 	}
 	f.n++
@@ -127,6 +129,9 @@ func (n Node) LookupByIndex(idx int64) (datamodel.Node, error) {
 	}
 	if idx < 0 || idx >= int64(len(n.v.L)) {
 		return nil, datamodel.ErrNotExists{Segment: datamodel.PathSegmentOfInt(idx)}
+	}
+	if err := n.f.tick(); err != nil {
+		return nil, err
 	}
 	return wrap(&n.v.L[idx], n.f), nil
 }
